@@ -160,6 +160,11 @@ let rpattern r (texts : string list) : string * string =
   | 10 -> (pick r [| "\\d+"; "^\\d+$"; "[0-9]"; "^$"; ""; "^-"; "\\d\\d\\d"; "^\\w+$"; "\\s" |], "generic")
   | 11 -> (pick r [| "true"; "nil"; "^<nil>$"; "map\\["; "^\\["; "\\]$"; "^\\[\\]$"; "e\\+"; "NaN"; "Inf"; "^1\\.5$"; ":"; " " |], "render")
   | 12 -> ("(?i)" ^ quote (flipcase (base ())), "explicit_ci")
+  | 13 -> (* a pattern that itself opens with "(?": a non-capturing group around an alternation, in the other letter case, so that
+             it matches only through the (?i) the tool prepends when CaseSensitive is off (seeded change C15-5) *)
+    let bs' = List.init (1 + rint r 2) (fun _ -> base ()) in
+    if List.exists (fun b -> String.contains b '\\') bs' then (quote (List.hd bs'), "lit")
+    else ("(?:" ^ String.concat "|" (List.map (fun b -> quote (flipcase b)) bs') ^ ")", "noncap_group")
   | _ -> (quote (base ()), "lit")
 
 (* ------------------------------------------------------------------ search cases *)
@@ -328,8 +333,15 @@ let rsecret_value r : gval =
 
 let rsecret_dump r : dumpResult =
   let d = rdump r in
+  (* in every second table one secret value is stored in several cells (other rows, other columns): each occurrence must be
+     reported with its own coordinates (seeded change C15-6: findings de-duplicated per table) *)
   List.map (fun db -> { db with d_tables = List.map (fun t ->
-      { t with t_rows = List.map (fun row -> List.map (fun (k, v) -> if rint r 3 = 0 then (k, v) else (k, rsecret_value r)) row) t.t_rows })
+      let dup = if rbool r then Some (rsecret_value r) else None in
+      { t with t_rows = List.map (fun row -> List.map (fun (k, v) ->
+            if rint r 3 = 0 then (k, v) else
+              match dup with
+              | Some dv when rint r 3 = 0 -> (k, dv)
+              | _ -> (k, rsecret_value r)) row) t.t_rows })
       db.d_tables }) d
 
 let rdetset r : int list =
